@@ -738,7 +738,7 @@ def main():
                                                "C21.harness")},
     classify=_classify_siblings, nontrivial=_siblings_nontrivial)
   # (4 worker processes: engine-heavy cases scale badly beyond that in forked pool workers)
-  fn.check(rep, sib, sibling_cases, exhaustive=True, limit_quick_s=40, limit_thorough_s=400,
+  fn.check(rep, sib, sibling_cases, exhaustive=True, limit_quick_s=30, limit_thorough_s=400,
            warm_engine=True, procs=4)
 
   from vlib.rtc import explore
